@@ -88,6 +88,7 @@ def run_script(script, payloads, roots, rng):
          ["settle", policy]                      server steps until quiescent; policy: "fifo" | "lifo" | "rr" | ["rand", seed]
          ["fault", msg number, recipient, "dup" | "corrupt"]   the first delivery of that message to that recipient is faulted
          ["restart", c]                          at a quiescent point
+         ["join", c] / ["leave", c]              the group's membership changes, at a quiescent point
        Returns (world, outcome) - outcome: None | ("exception", step, exc) | ("diverged", n)."""
     try:
         w = e2e.World(roots, script["n"])
@@ -131,6 +132,8 @@ def run_script(script, payloads, roots, rng):
         for op in script["ops"]:
             step = op
             k = op[0]
+            if k == "send" and op[2] == "G" and op[1] not in w.members():
+                continue        # only members write to the group
             if k == "send":
                 nmsg += 1
                 mid = "m%d" % nmsg
@@ -176,6 +179,10 @@ def run_script(script, payloads, roots, rng):
             elif k == "restart":
                 if not w.enabled():
                     w.do_restart(op[1])
+            elif k in ("join", "leave"):
+                # only while nothing is in flight, and only a change that is one
+                if not w.enabled() and ((op[1] in w.members()) == (k == "leave")):
+                    (w.do_join if k == "join" else w.do_leave)(op[1])
         step = ["settle", "final"]
         w.settle(chooser(["rand", rng.getrandbits(30)]), fault_for=fault_for)
         w.do_end()
@@ -228,6 +235,17 @@ def families(thorough, rng):
         add(3, [["send", "a", "G", "text"], ["settle", p], ["restart", "a"], ["send", "a", "G", "text"], ["settle", p], ["restart", "b"], ["send", "c", "G", "text"],
                 ["settle", p], ["send", "b", "G", "text"]], "restart-group")
         add(3, [["send", "a", "G", "text"], ["settle", p], ["restart", "b"], ["fault", 2, "b", "corrupt"], ["send", "a", "G", "text"], ["settle", p], ["send", "b", "a", "text"]], "restart-then-fault")
+    # membership changes: a newcomer has nobody's sender key (its retry receipt makes the author re-send with the key), a member that left
+    # gets nothing any more, one that comes back still holds the keys it had
+    for p in pol[:3] if not thorough else pol:
+        add(3, [["leave", "c"], ["send", "a", "G", "text"], ["settle", p], ["join", "c"], ["send", "a", "G", "image"], ["settle", p], ["send", "c", "G", "text"], ["settle", p],
+                ["send", "b", "G", "text"]], "join-after-first-message")
+        add(3, [["send", "a", "G", "text"], ["settle", p], ["leave", "b"], ["send", "a", "G", "location"], ["send", "b", "a", "text"], ["settle", p], ["join", "b"],
+                ["send", "b", "G", "text"], ["send", "a", "G", "text"]], "leave-and-return")
+        add(4, [["leave", "d"], ["send", "a", "G", "text"], ["send", "b", "G", "contact"], ["settle", p], ["join", "d"], ["fault", 3, "d", "corrupt"], ["send", "a", "G", "text"],
+                ["settle", p], ["fault", 4, "c", "dup"], ["send", "d", "G", "text"], ["settle", p], ["leave", "a"], ["send", "b", "G", "text"]], "group4-membership-faults")
+        add(3, [["leave", "b"], ["leave", "c"], ["send", "a", "G", "text"], ["settle", p], ["join", "b"], ["join", "c"], ["send", "a", "G", "text"], ["settle", p],
+                ["restart", "a"], ["send", "a", "G", "text"]], "alone-then-joined")
     return out
 
 
@@ -240,6 +258,8 @@ def from_sched(n, sched, rng):
             ops.append(["send", a["c"], a["d"], rng.choice(KINDS) if nm > 1 else "text"])
         elif a["t"] == "Process":
             ops.append(["process", a["c"]])
+        elif a["t"] in ("Join", "Leave"):
+            ops.append([a["t"].lower(), a["c"]])
         else:
             ops.append(["deliver", a["c"], a["f"], a.get("j", 1)])
     return {"n": n, "ops": ops, "label": "tlc-sim"}
@@ -324,11 +344,11 @@ def run(only=None):
     rng = random.Random(core.seed())
     r.cov["rule"] = ("case = one conversation script over 2-4 real stacks and the server double: (who submits which payload kind - text, extended text, "
                      "link preview, image, location, contact with generated field values - to whom, 1:1 or group; which queue the server advances next; "
-                     "duplicate / corrupted deliveries; restarts at quiescent points); schedules from TLC -simulate behaviours of E2E.tla plus systematic "
+                     "duplicate / corrupted deliveries; restarts and group membership changes at quiescent points); schedules from TLC -simulate behaviours of E2E.tla plus systematic "
                      "families x queue policies; every step recorded and validated by TLC against E2E_Trace (rules: exactly once, only recipients, original "
                      "content / sender / group, receipts, re-acknowledged duplicates, retry after corruption, only ciphertext on the wire, completeness at "
                      "quiescence); distinct by script")
-    for cfg in (("MC_E2E.cfg", "MC_E2E_group.cfg", "MC_E2E_reorder.cfg") + (("MC_E2E_thorough.cfg",) if thorough else ())):
+    for cfg in (("MC_E2E.cfg", "MC_E2E_group.cfg", "MC_E2E_reorder.cfg", "MC_E2E_members.cfg", "MC_E2E_members3.cfg") + (("MC_E2E_thorough.cfg", "MC_E2E_members_thorough.cfg") if thorough else ())):
         res = core.must_clean(core.tlc("E2E", cfg, r.scratch, workers=16, timeout=6000), cfg)
         r.add_tlc(res)
     bad = core.tlc("E2E", "MC_E2E_asread.cfg", r.scratch, workers=8)
